@@ -124,6 +124,8 @@ class RankSim:
         if cfg.corr_start is not None:
             self.corr = cfg.corr_start
         self.zero_pending = cfg.corr_start == -1     # the first launch of the rank carries correlation id 0
+        if self.zero_pending:
+            self.corr = 0                            # ... and nothing else does
         self.host_pid = 1000 + rank
         self.dev_pid = rank
         self.stream_ids = rng.sample([7, 13, 20, 24, 28, 32], cfg.nstreams + (1 if cfg.two_threads else 0))
